@@ -560,6 +560,33 @@ def _by_coordinates_only(candidates):
                   key=repr)
 
 
+def second_generation(ctx, region, reloaded, have, geo, facts, case):
+    """ history: the region file is itself a record with one region (whose children are listed in the order the first
+        file gave them, not necessarily numeric); written again from there and read, the content has to be the same """
+    path = os.path.join(tempfile.gettempdir(), f"vf-c12-second-{os.getpid()}.gbk")
+    try:
+        region.write_to_genbank(filename=path)
+        again = Record.from_biopython(SeqIO.read(path, "genbank"), "bacteria")
+    except Exception as err:  # pylint: disable=broad-except
+        ctx.violate("second-generation-fails", dict(facts, **core.crash_facts(err)), case)
+        return
+    finally:
+        if os.path.exists(path):
+            os.remove(path)
+    ctx.count("history:region-file-written-again-from-the-reloaded-record")
+    regions = again.get_regions()
+    if len(regions) != 1:
+        ctx.violate("second-generation-region-count", dict(facts, regions=len(regions)), case)
+        return
+    second = region_content(regions[0], again, geo.file_runs)
+    for section in have:
+        if have[section] != second[section]:
+            ctx.violate("second-generation-content:" + section.replace(" ", "-"),
+                        dict(facts, only_in_first=core.jsonable([x for x in have[section] if x not in second[section]][:2]),
+                             only_in_second=core.jsonable([x for x in second[section] if x not in have[section]][:2]),
+                             counts=[len(have[section]), len(second[section])]), case)
+
+
 def check_reload(ctx, view: RegionView, record, file_bio, log: Log, case):
     ctx.count("op:reload")
     geo = view.geo
@@ -583,6 +610,8 @@ def check_reload(ctx, view: RegionView, record, file_bio, log: Log, case):
     if facts["reloaded_region_extent_differs"]:
         ctx.violate("reload-content:region-extent", dict(facts, reloaded_region=str(regions[0].location),
                                                          file_length=geo.length), case)
+    if all(want[section] == have[section] for section in want) and not facts["reloaded_region_extent_differs"]:
+        second_generation(ctx, regions[0], reloaded, have, geo, facts, case)
     for section in want:
         if want[section] != have[section]:
             only_parent = [x for x in want[section] if x not in have[section]]
